@@ -131,7 +131,7 @@ func (e *Engine) merge(a, b *State) *State {
 			diff++
 		}
 	}
-	if diff > mergeMaxDiff {
+	if diff > mergeMaxDiff && !e.forceMerge {
 		return nil
 	}
 	L := commonPrefix(a.path, b.path)
@@ -151,7 +151,7 @@ func (e *Engine) merge(a, b *State) *State {
 	m := a.Clone()
 	m.path = append([]*Term(nil), a.path[:L]...)
 	m.pk = append([]bool(nil), a.pk[:L]...)
-	m.Assume(Or(ca, cb))
+	m.Branch(Or(ca, cb)) // a (disjunctive) branch condition: later merges must keep guarding with it
 	if ca.Size() > 60 {
 		n := Fresh("pc", BoolSort)
 		m.Assume(Eq(n, ca))
